@@ -226,11 +226,11 @@ where
     {
         loop {
             match self.peek()? {
-                Some(b' ') | Some(b'\n') | Some(b'\t') | Some(b'\r') | Some(0x0C) | Some(b')')
-                | Some(b']') | Some(b'(') | Some(b'[') | Some(b';') | Some(b'"') | Some(b'|')
-                | None => {
-                    if scratch == b"." {
-                        return error(self, ErrorCode::InvalidSymbol);
+                next @ (Some(b' ') | Some(b'\n') | Some(b'\t') | Some(b'\r') | Some(0x0C)
+                | Some(b')') | Some(b']') | Some(b'(') | Some(b'[') | Some(b';')
+                | Some(b'"') | Some(b'|') | None) => {
+                    if let Some(code) = check_symbol_end(scratch, next.is_none()) {
+                        return error(self, code);
                     }
                     return result(self, scratch);
                 }
@@ -384,21 +384,21 @@ impl<'a> SliceRead<'a> {
 
         loop {
             match self.peek_byte() {
-                None | Some(b' ') | Some(b'\n') | Some(b'\t') | Some(b'\r') | Some(0x0C)
-                | Some(b')') | Some(b']') | Some(b'(') | Some(b'[') | Some(b';') | Some(b'"')
-                | Some(b'|') => {
+                next @ (None | Some(b' ') | Some(b'\n') | Some(b'\t') | Some(b'\r')
+                | Some(0x0C) | Some(b')') | Some(b']') | Some(b'(') | Some(b'[')
+                | Some(b';') | Some(b'"') | Some(b'|')) => {
                     if scratch.is_empty() {
                         // Fast path: return a slice of the raw S-expression without any
                         // copying.
                         let borrowed = &self.slice[start..self.index];
-                        if borrowed == b"." {
-                            return error(self, ErrorCode::InvalidSymbol);
+                        if let Some(code) = check_symbol_end(borrowed, next.is_none()) {
+                            return error(self, code);
                         }
                         return result(self, borrowed).map(Reference::Borrowed);
                     } else {
                         scratch.extend_from_slice(&self.slice[start..self.index]);
-                        if scratch == b"." {
-                            return error(self, ErrorCode::InvalidSymbol);
+                        if let Some(code) = check_symbol_end(scratch, next.is_none()) {
+                            return error(self, code);
                         }
                         // "as &[u8]" is required for rustc 1.8.0
                         let copied = scratch as &[u8];
@@ -696,6 +696,28 @@ fn next_or_eof_char<'de, R: ?Sized + Read<'de>>(read: &mut R) -> Result<u8> {
 fn error<'de, R: ?Sized + Read<'de>, T>(read: &R, reason: ErrorCode) -> Result<T> {
     let position = read.position();
     Err(Error::syntax(reason, position.line, position.column))
+}
+
+/// Checks the bytes of a scanned symbol that are not a symbol: a lone dot, and
+/// — when the symbol ends where the input ends — a token that may have been cut
+/// short (a dot that could start `..` or `.a`, an incomplete UTF-8 sequence),
+/// which is reported as end of input rather than as malformed input.
+fn check_symbol_end(bytes: &[u8], at_eof: bool) -> Option<ErrorCode> {
+    if bytes == b"." {
+        return Some(if at_eof {
+            ErrorCode::EofWhileParsingValue
+        } else {
+            ErrorCode::InvalidSymbol
+        });
+    }
+    if at_eof {
+        if let Err(err) = str::from_utf8(bytes) {
+            if err.error_len().is_none() {
+                return Some(ErrorCode::EofWhileParsingValue);
+            }
+        }
+    }
+    None
 }
 
 fn as_str<'de, 's, R: Read<'de>>(read: &R, slice: &'s [u8]) -> Result<&'s str> {
@@ -1015,10 +1037,35 @@ fn parse_r6rs_char<'de, R: Read<'de> + ?Sized>(
             b"esc" => Ok('\x1B'),
             b"space" => Ok(' '),
             b"delete" => Ok('\x7F'),
-            _ => error(read, ErrorCode::InvalidCharacterConstant),
+            name => {
+                // At the end of the input, the beginning of a character name
+                // may have been cut short.
+                let truncated =
+                    read.peek()?.is_none() && CHAR_NAMES.iter().any(|full| full.starts_with(name));
+                if truncated {
+                    error(read, ErrorCode::EofWhileParsingCharacterConstant)
+                } else {
+                    error(read, ErrorCode::InvalidCharacterConstant)
+                }
+            }
         }
     }
 }
+
+static CHAR_NAMES: [&[u8]; 12] = [
+    b"nul",
+    b"alarm",
+    b"backspace",
+    b"tab",
+    b"linefeed",
+    b"newline",
+    b"vtab",
+    b"page",
+    b"return",
+    b"esc",
+    b"space",
+    b"delete",
+];
 
 /// Expects a `#\x` sequence has just been consumed; returns the value of the
 /// subsequent hex digits, or `None`, if the sequence was empty.
@@ -1219,7 +1266,7 @@ pub(crate) fn decode_utf8_sequence<'de, R: Read<'de> + ?Sized>(
     for _ in 0..len {
         let b = match read.next()? {
             Some(c) => c,
-            None => return error(read, ErrorCode::InvalidUnicodeCodePoint),
+            None => return error(read, ErrorCode::EofWhileParsingValue),
         };
         scratch.push(b);
     }
